@@ -77,6 +77,12 @@ pub struct Sc {
     /// reaches); metadata then was signed with the online keys of the root trusted then
     #[serde(default)]
     pub prior: Option<u64>,
+    /// clutter in the signature lists of all root documents, which changes nothing about who
+    /// validly signed: 0 = none; 1 = before each valid entry a corrupted entry under the same key
+    /// id; 2 = before each valid entry one by the same key over other content (a stale signature);
+    /// 3 = the same clutter after the valid entries
+    #[serde(default)]
+    pub junk: u8,
 }
 
 pub struct C02;
@@ -212,7 +218,36 @@ fn build_chain(sc: &Sc) -> Vec<Option<Served>> {
             });
         }
         let signers = distinct(signers);
-        let doc = Doc::signed_by(signed, &signers);
+        let mut doc = Doc::signed_by(signed, &signers);
+        if sc.junk != 0 {
+            let mut other = doc.signed.clone();
+            other.set("spec_version", crate::json::s("1.0.1"));
+            let mut cluttered = Vec::new();
+            let mut tail = Vec::new();
+            for (e, k) in doc.sigs.iter().zip(signers.iter()) {
+                let junk = match sc.junk {
+                    2 => sign_with(&other, k),
+                    _ => {
+                        let mut j = e.clone();
+                        let mut raw = hex::decode(&j.sig).unwrap_or_default();
+                        if let Some(b) = raw.last_mut() {
+                            *b ^= 0x01;
+                        }
+                        j.sig = hex::encode(raw);
+                        j
+                    }
+                };
+                if sc.junk == 3 {
+                    cluttered.push(e.clone());
+                    tail.push(junk);
+                } else {
+                    cluttered.push(junk);
+                    cluttered.push(e.clone());
+                }
+            }
+            cluttered.extend(tail);
+            doc.sigs = cluttered;
+        }
         out.push(Some(Served {
             bytes: doc.bytes(),
             info: Some(HopInfo {
@@ -354,7 +389,7 @@ impl Check for C02 {
         "C02"
     }
     fn rule(&self) -> String {
-        "root chain of 1..5 versions with a rotation kind per hop (same, disjoint, overlapping, threshold up/down, algorithm change, key added), shipped root anywhere on the chain (optionally not self-verifying), at most one broken hop (10 kinds), top-level metadata signed with the online keys of any epoch, optional availability fault (fetch/stream x not-found/other) on one root request, and in a third of the runs a datastore left by an earlier clean cycle that ended 0..3 good hops beyond the shipped root; the root trusted at the end is compared by content, not only by version; non-trivial = a broken hop, revoked-key metadata, unsigned shipped root or availability fault was actually reached by the client; distinct = distinct canonical trace".into()
+        "root chain of 1..5 versions with a rotation kind per hop (same, disjoint, overlapping, threshold up/down, algorithm change, key added), shipped root anywhere on the chain (optionally not self-verifying), at most one broken hop (10 kinds), top-level metadata signed with the online keys of any epoch, optional availability fault (fetch/stream x not-found/other) on one root request, in a quarter of the runs non-verifying clutter (corrupted or stale entries under the signers' key ids) before or after the valid entries of every root's signature list, and in a third of the runs a datastore left by an earlier clean cycle that ended 0..3 good hops beyond the shipped root; the root trusted at the end is compared by content, not only by version; non-trivial = a broken hop, revoked-key metadata, unsigned shipped root or availability fault was actually reached by the client; distinct = distinct canonical trace".into()
     }
     fn assumptions(&self) -> Vec<String> {
         vec!["ground truth = harness bookkeeping of who signed each root document".into(), "no expiry in this check (C04)".into()]
@@ -406,6 +441,7 @@ impl Check for C02 {
             meta_epoch,
             avail,
             prior: if r.chance(1, 3) { Some(r.below(4)) } else { None },
+            junk: if r.chance(1, 4) { 1 + r.below(3) as u8 } else { 0 },
         }
     }
     fn shrink(&self, sc: &Sc) -> Vec<Sc> {
@@ -415,6 +451,9 @@ impl Check for C02 {
         }
         if sc.prior.is_some() {
             v.push(Sc { prior: None, ..sc.clone() });
+        }
+        if sc.junk != 0 {
+            v.push(Sc { junk: 0, ..sc.clone() });
         }
         if sc.consistent {
             v.push(Sc { consistent: false, ..sc.clone() });
@@ -505,8 +544,8 @@ impl Check for C02 {
         });
         let shipped_bytes = chain[sc.shipped].as_ref().unwrap().bytes.clone();
         o.ev(format!(
-            "cfg n={} shipped={} unsigned={} broken={:?} meta_epoch={} avail={:?} consistent={} epochs={:?}",
-            n, sc.shipped, sc.shipped_unsigned, sc.broken, sc.meta_epoch, sc.avail, sc.consistent,
+            "cfg n={} shipped={} unsigned={} broken={:?} meta_epoch={} avail={:?} consistent={} junk={} epochs={:?}",
+            n, sc.shipped, sc.shipped_unsigned, sc.broken, sc.meta_epoch, sc.avail, sc.consistent, sc.junk,
             sc.epochs.iter().map(|e| (e.root_keys.len(), e.root_thr, e.online_gen)).collect::<Vec<_>>()
         ));
         o.ev(format!(
@@ -545,6 +584,10 @@ impl Check for C02 {
                 Ok(v) if v == then_version => warm = true,
                 Ok(v) => {
                     o.violate("stopped-early", format!("an earlier clean cycle ended at root {v}; every hop up to {then_version} is properly double-signed"));
+                    return o;
+                }
+                Err(e) if e == "VerifyTrustedMetadata" || e == "VerifyMetadata" => {
+                    o.violate("good-chain-rejected:signature", format!("an earlier cycle over properly double-signed hops up to root {then_version} failed with {e}"));
                     return o;
                 }
                 Err(e) => {
